@@ -154,16 +154,17 @@ Definition pend_of (c : ctx) (r : preq) (o : outcome) : option (Z * bool) :=
   if handed_on o then Some (seqno r, can_reuse_nonce c r) else None.
 
 (* ---- _store raising OSError (ENOSPC, EIO, ...) when [k] of its effects have been performed (k = 0..3; the rename is never
-   reached): the process survives with the attributes it had set before calling _store.  Outside the property's quantifier
-   (crash points), modelled to show what the code does then (known finding, notes/C13.md round 5). *)
+   reached): the process survives; the callers roll back what they had set for the write (`except BaseException: ...; raise`
+   in post_seqnoincrease and _replay_window_changed, oscore.py:2010-2034, since /repo 304561f).  The exception monad of the
+   translated kernels carries no state after a Raise, so these hand-written variants are where the rollback is modelled. *)
 Definition OSError : exn := OtherError 28.
 Definition _store_fails (p : proc) (d : disk) (k : Z) : disk :=
   apply_effects (firstn (Z.to_nat (Z.min (Z.max k 0) 3)) (store_effects p)) d.
 Definition post_seqnoincrease_fails (p : proc) (d : disk) (k : Z) : proc * disk * res unit :=
   if ssn p >? persisted p then
-    let p := set_persisted p (persisted p + chunk p) in
-    let p := set_chunk p (Z.min (chunk p * 2) (limit p)) in
-    (p, _store_fails p d k, Exn OSError)
+    let p1 := set_persisted p (persisted p + chunk p) in
+    let p1 := set_chunk p1 (Z.min (chunk p1 * 2) (limit p1)) in
+    (p, _store_fails p1 d k, Exn OSError)            (* sequence_number_persisted, chunksize := previous; raise *)
   else (p, d, Val tt).
 Definition new_sequence_number_fails (p : proc) (d : disk) (k : Z) : proc * disk * res Z :=
   let retval := ssn p in
@@ -179,7 +180,7 @@ Definition unprotect_fails (p : proc) (d : disk) (k : Z) (r : preq) : proc * dis
   let '(c', o) := unprotect_request (uc p) r in
   let p1 := set_uc p c' in
   if strikes (uc p) o && wpers p1 then
-    let p2 := set_wpers p1 false in (p2, _store_fails p2 d k, Exn OSError)
+    (p1, _store_fails (set_wpers p1 false) d k, Exn OSError)   (* replay_window_persisted := True again; raise *)
   else (p1, d, Val o).
 
 (* what _load makes of the "received" member *)
